@@ -35,7 +35,11 @@ def main():
                 core.build(v)
             for prog in ('tests', 'example'):
                 core.build_suite(prog)          # the recorded test suite / example (skipped by their stages if they do not build)
-            r = core.sh('cd %s && for m in *.tla; do tla-sany $m > /dev/null 2>&1 || echo "PARSE-FAIL $m"; done' % core.SPEC)
+            # the parser unpacks its standard modules into java.io.tmpdir on every start: keep that inside the scratch area
+            td = os.path.join(core.OUT, 'sany-tmp')
+            os.makedirs(td, exist_ok=True)
+            r = core.sh('cd %s && for m in *.tla; do JAVA_TOOL_OPTIONS=-Djava.io.tmpdir=%s tla-sany $m > /dev/null 2>&1 || echo "PARSE-FAIL $m"; done; rm -rf %s'
+                        % (core.SPEC, td, td))
             print(r.stdout.strip() or 'setup ok')
             return 1 if 'PARSE-FAIL' in r.stdout else 0
         except core.MachineryError as e:
